@@ -920,6 +920,8 @@ builtinfunc(struct scope *s, enum builtinkind kind)
 		e->type = typename(s, &e->qual, &toeval);
 		if (!e->type)
 			error(&tok.loc, "expected type name in __builtin_va_arg");
+		if (e->type->incomplete || e->type->kind == TYPEFUNC)
+			error(&tok.loc, "__builtin_va_arg with incomplete or function type");
 		e->toeval = toeval;
 		break;
 	case BUILTINVACOPY:
